@@ -12,6 +12,16 @@ INFINITE_SRC = re.compile(r"^std::iter::(repeat|repeat_with|from_fn|successors)$
 ALLOC = re.compile(r"(Vec|VecDeque)::<T, A>::(with_capacity|resize|resize_with|reserve|reserve_exact)$|(Vec|String)::<.*>::with_capacity$|String::with_capacity$|std::vec::from_elem$|"
                    r"bitstream_io::(BitRead|ByteRead)::read_to_vec$|Contiguous::<MAX, T>::with_capacity$")
 ALLOC_LIMIT = 1 << 27
+UNBOUNDED_TY = re.compile(r"std::iter::(Repeat|RepeatWith|Cycle|Successors)<|std::ops::RangeFrom<|std::io::(Bytes|Lines|Split)<")
+ADAPTOR_TY = re.compile(r"std::iter::(Rev|Zip|Map|Enumerate|Skip|Take|StepBy|Chain|Copied|Cloned|Filter|FilterMap|Peekable|Inspect|TakeWhile|SkipWhile|Fuse|Flatten|FlatMap|MapWhile|Scan)<")
+
+
+def finite_iter_type(ity):
+    """the iterator type named in a `next()` call is finite: a known finite source, possibly wrapped in std adaptors, and
+    no unbounded source anywhere in the type"""
+    if UNBOUNDED_TY.search(ity):
+        return False
+    return bool(FINITE_ITER.search(ity))
 
 
 def cfg_sccs(b):
@@ -136,6 +146,60 @@ def counter_loop(b, comp):
     return None
 
 
+def sub_sccs(b, nodes):
+    """strongly connected components (with a cycle) of the sub-graph induced by `nodes`"""
+    nodes = set(nodes)
+    idx, low, st, on, out, c = {}, {}, [], set(), [], [0]
+
+    def dfs(v):
+        idx[v] = low[v] = c[0]
+        c[0] += 1
+        st.append(v)
+        on.add(v)
+        for w in b.succs(v):
+            if w not in nodes:
+                continue
+            if w not in idx:
+                dfs(w)
+                low[v] = min(low[v], low[w])
+            elif w in on:
+                low[v] = min(low[v], idx[w])
+        if low[v] == idx[v]:
+            comp = []
+            while True:
+                w = st.pop()
+                on.discard(w)
+                comp.append(w)
+                if w == v:
+                    break
+            if len(comp) > 1 or v in b.succs(v):
+                out.append(sorted(comp))
+    for v in sorted(nodes):
+        if v not in idx:
+            dfs(v)
+    return out
+
+
+def nest_driven(b, comp, depth=0):
+    """a (possibly nested) loop in which every cycle passes the next() of a finite iterator or a counter step:
+    remove one driver, the rest must fall apart into loops that are driven themselves"""
+    if depth > 4:
+        return None
+    drivers = []
+    for i in comp:
+        t = b.blocks[i]["t"]
+        if t and t["t"] == "call" and (t["f"].get("path") == "std::iter::Iterator::next" or re.search(r"Iterator>?::next$", callee_name(t))):
+            ity = t["aty"][0] if t["aty"] else ""
+            if finite_iter_type(ity):
+                drivers.append((i, "next() on %s" % ity[:60]))
+    for i, why in drivers:
+        rest = [x for x in comp if x != i]
+        inner = sub_sccs(b, rest)
+        if all(nest_driven(b, c2, depth + 1) or counter_loop(b, c2) for c2 in inner):
+            return why + (" (with %d inner loop(s))" % len(inner) if inner else "")
+    return None
+
+
 def call_sccs(cg, keys):
     idx, low, st, on, comps, c = {}, {}, [], set(), [], [0]
 
@@ -191,11 +255,15 @@ def check(F, cg, prog, reach, rep, P, audit):
             detail = ""
             for i, t in nexts:
                 ity = t["aty"][0] if t["aty"] else ""
-                if FINITE_ITER.search(ity) and acyclic_without(b, comp, [i]):
+                if finite_iter_type(ity) and acyclic_without(b, comp, [i]):
                     good = True
                     detail = "driven by next() on %s" % ity[:80]
             if good:
                 rep.ok(P + ".loop", "%s: cycle driven by a finite iterator" % key, loc_of_block(b, comp[0]), detail)
+                continue
+            nd_ = nest_driven(b, comp)
+            if nd_:
+                rep.ok(P + ".loop", "%s: nested loops driven by finite iterators" % key, loc_of_block(b, comp[0]), nd_)
                 continue
             cl_ = counter_loop(b, comp)
             if cl_:
